@@ -22,7 +22,7 @@ for name in "$@"; do
     mode=native
     # demos that need a release build or the hook cfg say so in their README / source
     grep -q -- "--release --test" $d/README.md 2>/dev/null && feats="$feats --release"
-    grep -q "cfg(triomphe_verif)" $d/demo.rs 2>/dev/null && export RUSTFLAGS="--cfg triomphe_verif"
+    grep -q "cfg(triomphe_verif)\|verif_hooks" $d/demo.rs 2>/dev/null && export RUSTFLAGS="--cfg triomphe_verif"
     r=$(cargo test --offline $feats --test seed_demo 2>&1 | grep -E "test result|error(\[|:)|signal|SIG" | head -2 | tr '\n' ' ')
     if echo "$r" | grep -q "test result: ok"; then
       mode=miri
